@@ -170,13 +170,19 @@ def _c03_oracle(tr, origin, meta):
         out += oracles.c02_values(tr, origin, meta['types']) + oracles.c06_assets(tr, origin, meta['enabled'])
     else:
         out += oracles.c02_values(tr, origin)        # corpus scenarios register every type on every peer
+        try:
+            text = open(origin['scenario']).read()
+        except (OSError, KeyError):
+            text = ''
+        if 'addasset' in text:
+            out += oracles.c06_assets(tr, origin, _c06_meta(text))
     return out
 
 
 def run_c03(ctx):
     n = _tier(ctx, 20, 240)
     jobs, metas = _jobs_from(scen.join, 'C03', ctx['seed'], n)
-    jobs = pc.corpus_jobs(['S18_*.scn', 'S11_*.scn', 'R1_*.scn', 'S12_*.scn', 'S25_*.scn', 'S26_*.scn']) + jobs
+    jobs = pc.corpus_jobs(['S18_*.scn', 'S11_*.scn', 'R1_*.scn', 'S12_*.scn', 'S25_*.scn', 'S26*.scn']) + jobs
     out = pc.run_scenarios('C03', ctx, jobs, [_with_meta(metas, _c03_oracle)], nontrivial=pc.received_kinds)
     out['opstats']['entity_model_replays'] = _absent(out)
     return pc.make_result('C03', ctx, out, 'frames of histories in which the last client joins at a random moment (idle or while the others keep writing), 8 switch combinations; non-trivial = distinct (scenario, receiver, kind, key) received',
@@ -282,7 +288,7 @@ def _c06_meta(text):
 def run_c06(ctx):
     n = _tier(ctx, 16, 200)
     jj, _ = _jobs_from(scen.join, 'C06j', ctx['seed'], max(6, n // 2))
-    jobs = pc.corpus_jobs(['S7_*.scn', 'S12_*.scn', 'S26_*.scn']) + pc.generated_jobs('C06', ctx['seed'], n, ['assets']) + jj
+    jobs = pc.corpus_jobs(['S7_*.scn', 'S12_*.scn', 'S26*.scn']) + pc.generated_jobs('C06', ctx['seed'], n, ['assets']) + jj
     metas = {name: _c06_meta(text) for name, text in jobs}
 
     def orc(tr, origin):
@@ -411,7 +417,8 @@ def run_c15(ctx):
 def run_c16(ctx):
     n = _tier(ctx, 20, 240)
     gj, _ = _jobs_from(scen.skinned_clean, 'C16', ctx['seed'], n)
-    jobs = pc.corpus_jobs(['S17_*.scn', 'S13_*.scn']) + gj
+    gk, _ = _jobs_from(scen.skinned_join, 'C16j', ctx['seed'], max(6, n // 3))
+    jobs = pc.corpus_jobs(['S17_*.scn', 'S13_*.scn']) + gj + gk
     out = pc.run_scenarios('C16', ctx, jobs, [oracles.c16_skins], nontrivial=pc.received_kinds)
     return pc.make_result('C16', ctx, out, 'frames of histories with SkinnedMesh components (0..3 joints, repeats, joints and meshes written by owners and by other peers, local entity ids differing between peers, late joiners = snapshot path); joints are compared as uuids; non-trivial = distinct (scenario, receiver, kind, key) received')
 
